@@ -2149,7 +2149,17 @@ def _target_names(t):
 # mutable python containers with concrete structure
 
 
-class PyList:
+class _PyListSubstMixin:
+    def pvc_subst(self, pairs):
+        # a list literal inside a comprehension template is a NEW list per iteration; a list that does not mention the
+        # substituted index keeps its identity (lists are heap objects)
+        new = [subst(x, pairs) for x in self.items]
+        if all(a is b for a, b in zip(new, self.items)):
+            return self
+        return type(self)(new)
+
+
+class PyList(_PyListSubstMixin):
     def __init__(self, items=None):
         self.items = list(items or [])
 
